@@ -1437,7 +1437,8 @@ impl Scenario for EmfHistory {
                 J::Null
             };
             let sample = if jb(&cfg, "sampled", false) && rng.chance(0.7) { json!([*rng.pick(&[1.0, 0.5, 0.25, 0.001]), rng.next_u64()]) } else { J::Null };
-            calls.push(json!({"entry": entry, "fault": fault, "sample": sample}));
+            // now and then the long-lived formatter is replaced by its own clone (same configuration, a history)
+            calls.push(json!({"entry": entry, "fault": fault, "sample": sample, "clone_first": rng.chance(0.06)}));
         }
         json!({"sched": {"seed": rng.next_u64() >> 1}, "config": cfg, "calls": calls, "fault_free_stratum": !faulty})
     }
@@ -1467,6 +1468,13 @@ impl Scenario for EmfHistory {
             if let Some(k) = f.get("interrupted_at_call").and_then(|x| x.as_u64()) {
                 w.at_call.insert(k as usize, WFault::Interrupted);
                 w.chunk = ju(f, "chunk", 0) as usize;
+            }
+            if jb(call, "clone_first", false) {
+                if let Fmt::Plain(e) = &long_lived {
+                    let c = e.clone();
+                    long_lived = Fmt::Plain(c);
+                    *r.probes.entry("used_formatter_cloned".into()).or_insert(0) += 1;
+                }
             }
             let mut fresh = Fmt::build(cfg);
             let mut fw = FaultyWriter::perfect();
@@ -1549,7 +1557,7 @@ impl Scenario for EmfHistory {
         r
     }
     fn probes(&self) -> Vec<&'static str> {
-        vec!["rejected_entries_in_history", "accepted_entries_in_history", "multi_megabyte_entry"]
+        vec!["rejected_entries_in_history", "accepted_entries_in_history", "multi_megabyte_entry", "used_formatter_cloned"]
     }
     fn components(&self) -> J {
         json!({"real": ["Emf (one long-lived instance per run) / SampledEmf", "EntryWriter", "PrefixedStringBuf::clear/shrink_to", "validation maps"], "simulated_seams": ["io::Write (fault-scripted)", "RngCore (constant)", "hash-map hasher (seeded)"], "harness": ["generated entries incl. each validation defect, split mode, entry dimensions, unroutable error reports, 2-3 MB strings"], "stub": []})
